@@ -37,7 +37,7 @@ def handle (line : String) : String :=
   | "contacts" :: _ | "allpairs" :: _ | "moments" :: _ | "drid" :: _ | "wsums" :: _ | "rdf" :: _ => handleDescr ws
   | "hbtrip" :: _ | "bh" :: _ | "wn" :: _ | "ks" :: _ => handleHb ws
   | "dssp" :: _ => handleDssp ws
-  | "trr" :: _ | "dcd" :: _ | "fmtq" :: _ | "rstnames" :: _ | "txt" :: _ | "txtparse" :: _ => handleFmt ws
+  | "trr" :: _ | "dcd" :: _ | "xtc" :: _ | "fmtq" :: _ | "rstnames" :: _ | "txt" :: _ | "txtparse" :: _ => handleFmt ws
   | "imgorder" :: _ | "imgvalid" :: _ | "imgwhole" :: _ | "imgwrap" :: _ => handleImage ws
   | _ => "bad-op"
 
